@@ -6,6 +6,8 @@ Pipeline (S->I).  Hypothesis programs beyond the TLC bounds are executed, record
 the RecordingOrchestrator seam and batch-validated against PipelineTrace.tla (I->S)."""
 from __future__ import annotations
 
+import copy
+
 import json
 import os
 import random
@@ -132,6 +134,42 @@ def replay_one(payload: Dict[str, Any]) -> int:
     return 0
 
 
+def bystander_checks(run: core.Run) -> None:
+    """Context values that no node reads must not matter: a handful of fixed pipelines (results computed by hand from
+    the node semantics) is run with contexts that also hold awkward values -- numpy arrays, NaN, a generator, an
+    object whose == raises, mappings with mixed keys, a lone surrogate -- and must return exactly the same."""
+    from .. import seams
+    seams.setup()
+    import numpy
+    import verif_ext
+    from semantiva.context_processors import ContextType
+    from semantiva.examples.test_utils import FloatDataType
+    from semantiva.pipeline import Payload, Pipeline
+
+    def awkward():
+        return {"z_arr": numpy.arange(4.0), "z_arrs": [numpy.array([1, 2])], "z_nan": float("nan"), "z_gen": (i for i in range(2)),
+                "z_eq": verif_ext.VBadEq(), "z_mixed": {1: "a", "b": 2}, "z_sur": "scan_\udcff.dat", "z_none": None, "z_empty": ""}
+    cases = [
+        ([{"processor": "FloatDataSink"}], {}, 3.0, {}),
+        ([{"processor": "FloatCollectValueProbe", "context_key": "a"}, {"processor": "FloatMultiplyOperation"}], {"factor": 2.0}, 6.0, {"a": 3.0, "factor": 2.0}),
+        ([{"processor": "FloatMultiplyOperationWithDefault"}, {"processor": "rename:factor:kept"}], {"factor": 4.0}, 12.0, {"kept": 4.0}),
+        ([{"processor": 'template:"x={factor}":label'}, {"processor": "delete:factor"}, {"processor": "FloatSquareOperation"}], {"factor": 4.0}, 9.0, {"label": "x=4.0"}),
+    ]
+    for nodes, ctx, want_data, want_ctx in cases:
+        c = dict(ctx, **awkward())
+        run.evaluations += 1
+        try:
+            res = Pipeline(copy.deepcopy(nodes)).process(Payload(FloatDataType(3.0), ContextType(c)))
+            got_ctx = {k: v for k, v in res.context.to_dict().items() if not k.startswith("z_")}
+            left = sorted(k for k in res.context.to_dict() if k.startswith("z_"))
+            if res.data.data != want_data or got_ctx != want_ctx or left != sorted(awkward()):
+                run.violation("bystander-values:result", f"{nodes} with unread awkward context values: data {res.data.data} context {got_ctx} "
+                              f"(bystanders left: {left}); expected data {want_data} context {want_ctx}", {"nodes": nodes})
+        except Exception as exc:
+            run.violation("bystander-values:raises", f"{nodes} raises {type(exc).__name__}: {str(exc)[:160]} when the context also holds values that "
+                          f"no node reads (numpy arrays, NaN, a generator, an object whose == raises, mixed-key mappings, a lone surrogate)", {"nodes": nodes})
+
+
 def check(tier: str) -> int:
     run = core.Run("C01", tier)
     run.rule = ("cases = terminal behaviours of Pipeline.tla (program x initial context x initial data) emitted by TLC "
@@ -168,4 +206,5 @@ def check(tier: str) -> int:
     run.exhaustive = True
     from . import c01_trace
     c01_trace.validate(run, tier)
+    bystander_checks(run)
     return run.finish()
